@@ -434,3 +434,11 @@ package rag
 //@   loop 0:
 //@     invariant !isnil(chunkIndex)
 //@     invariant currentText.Len() <= c.config.MaxChunkSize || ($i >= 1 && currentText.Len() == len(sentences[$i-1]))
+
+// ---- C02: the sentence splitter stays in bounds for every text (the look-behind for "Mr."-style abbreviations must
+// not reach before the start of the current sentence) ----
+//@ func splitIntoSentences results (res)
+//@   property C02
+//@   loop 0:
+//@     invariant 0 <= i && i <= len(runes)
+//@     decreases len(runes) - i
